@@ -191,9 +191,8 @@ func closeStdoutSink(c *vlib.Ctx) {
 	if sinkW == nil {
 		return
 	}
-	if f, e := os.OpenFile(os.DevNull, os.O_WRONLY, 0); e == nil {
-		os.Stdout = f
-	}
+	// os.Stdout itself is left alone (timer goroutines of earlier loggers are still alive): writes
+	// to the closed pipe fail and are ignored by fmt and log
 	sinkW.Close()
 	sinkDone.Wait()
 	c.Count("stdout_sink_bytes_drained", sinkBytes.Load())
